@@ -60,7 +60,7 @@ class Relationship(_RelationshipObject):
         super(Relationship, self).__init__(**kwargs)
 
     def _check_object_constraints(self):
-        super(self.__class__, self)._check_object_constraints()
+        super(Relationship, self)._check_object_constraints()
 
         if not re.match(r"^[a-z0-9-]+\Z", self.get('relationship_type', '')):
             raise ValueError(
@@ -116,7 +116,7 @@ class Sighting(_RelationshipObject):
         super(Sighting, self).__init__(**kwargs)
 
     def _check_object_constraints(self):
-        super(self.__class__, self)._check_object_constraints()
+        super(Sighting, self)._check_object_constraints()
 
         first_seen = self.get('first_seen')
         last_seen = self.get('last_seen')
